@@ -496,7 +496,7 @@ def _cache_dir():
 def load_program(repo='/repo', with_tools=True, with_mbedtls=False, use_cache=True, log=None):
     repo = os.path.realpath(repo)
     t0 = time.time()
-    key = tree_hash(repo, extra=(with_mbedtls,))
+    key = tree_hash(repo, extra=(with_mbedtls, with_tools))
     cfile = os.path.join(_cache_dir(), key + '.pkl')
     if use_cache and os.path.exists(cfile):
         try:
